@@ -47,6 +47,9 @@ type Contract struct {
 	Lemma     bool
 	Uses      []string
 	ParamSorts []string
+	SamePkg    string
+	SameAs     string   // take clauses and parameter names from this contract
+	Dead       []string // return sites declared unreachable (must be proved unreachable)
 }
 
 type GhostDecl struct {
@@ -71,7 +74,7 @@ type ContractFile struct {
 	Preludes  []string // names of prelude files this package's contracts need
 }
 
-var kwRe = regexp.MustCompile(`^(requires|ensures|modifies|panics|may_panic|loop|mode|extern|assumed|pure|props|noinline|uses|iface|hint|trigger)\b`)
+var kwRe = regexp.MustCompile(`^(requires|ensures|modifies|panics|may_panic|loop|mode|extern|assumed|pure|props|noinline|uses|iface|hint|trigger|dead|same_as|instance)\b`)
 
 // parseContractFile reads //@ lines. pkgPath is the import path the file belongs to
 // (can be overridden by a `//@ package <path>` line for extern contract files).
@@ -199,6 +202,12 @@ func parseContractFile(path, pkgPath string) (*ContractFile, error) {
 			cur.Iface = true
 		case "props":
 			cur.Props = append(cur.Props, strings.Fields(rest)...)
+			last = nil
+		case "same_as":
+			cur.SameAs = strings.TrimSpace(rest)
+			last = nil
+		case "dead":
+			cur.Dead = append(cur.Dead, strings.Fields(rest)...)
 			last = nil
 		case "uses":
 			cur.Uses = append(cur.Uses, strings.Fields(rest)...)
@@ -407,10 +416,18 @@ func loadContracts(repo, specDir string) (map[string]*Contract, []GhostDecl, []*
 	add := func(cf *ContractFile) error {
 		files = append(files, cf)
 		for _, c := range cf.Contracts {
-			if prev, dup := out[c.Key]; dup {
-				return fmt.Errorf("duplicate contract for %s (%s:%d and %s:%d)", c.Key, prev.File, prev.Line, c.File, c.Line)
+			k := c.Key
+			if c.ModeSet && (c.Extern || c.Assumed) {
+				if c.Mode == ValueMode {
+					k += "@value"
+				} else {
+					k += "@heap"
+				}
 			}
-			out[c.Key] = c
+			if prev, dup := out[k]; dup {
+				return fmt.Errorf("duplicate contract for %s (%s:%d and %s:%d)", k, prev.File, prev.Line, c.File, c.Line)
+			}
+			out[k] = c
 		}
 		ghosts = append(ghosts, cf.Ghosts...)
 		return nil
@@ -445,6 +462,26 @@ func loadContracts(repo, specDir string) (map[string]*Contract, []GhostDecl, []*
 			return nil, nil, nil, err
 		}
 	}
+	defer func() {
+		for _, c := range out {
+			if c.SameAs == "" {
+				continue
+			}
+			src := out[c.SameAs]
+			if src == nil {
+				src = out[c.SameAs+"@value"]
+			}
+			if src == nil {
+				fmt.Fprintf(os.Stderr, "contract %s: same_as %s not found\n", c.Key, c.SameAs)
+				continue
+			}
+			c.Clauses, c.Params, c.Results, c.Uses = src.Clauses, src.Params, src.Results, src.Uses
+			if c.Recv != "" && src.Recv != "" {
+				c.Recv = src.Recv
+			}
+			c.SamePkg = src.Pkg
+		}
+	}()
 	ex, _ := filepath.Glob(filepath.Join(specDir, "extern", "*.go.txt"))
 	for _, p := range ex {
 		cf, err := parseContractFile(p, "")
